@@ -225,10 +225,11 @@ func c03Wrappers(p *Prog, c *Check) {
 			slot, ptr := fi.T(args[2]), fi.T(args[3])
 			okEon := ParsePat("$m.Eon").Match(fi.T(args[1]), copyBinds(b))
 			okIDs := false
-			if mo := fi.asMapOver(p, args[4]); mo != nil && len(mo.Elems) == 1 && mo.Loop.Lo == 0 {
+			// append loop, make+fill loop or a helper returning either
+			if mv := fi.mapViewOf(p, fi.T(args[4]), 0); mv != nil {
 				mb := copyBinds(b)
-				mb["j"] = mo.Loop.Idx
-				okIDs = ParsePat("len($m.Shares)").Match(mo.Loop.Bound, mb) && ParsePat("$m.Shares[$j].IdentityPreimage").Match(mo.Elems[0], mb)
+				mb["j"] = mv.Idx
+				okIDs = ParsePat("len($m.Shares)").Match(mv.Bound, mb) && ParsePat("$m.Shares[$j].IdentityPreimage").Match(mv.Elem, mb)
 			}
 			// the attached extra literal
 			okExtra := false
@@ -295,7 +296,7 @@ func c03Order(p *Prog, c *Check) {
 			found := false
 			nonStrict := p.forallBefore(fn, ap.r, acceptConds(accept), nil, 0, func(lc loopCtx) bool {
 				lb := copyBinds(b)
-				if !ParsePat("len($m." + s.coll + ")").Match(lc.bound(), lb) {
+				if !ParsePat("len($m."+s.coll+")").Match(lc.bound(), lb) {
 					return false
 				}
 				lb["i"] = lc.loop.Idx
